@@ -14,6 +14,7 @@ RS = 'precondition/tearfree/reshaper.py'
 RA = 'precondition/tearfree/reallocation.py'
 PX = 'precondition/tearfree/praxis_shim.py'
 OCO = 'precondition/oco/algorithms.py'
+TR = 'precondition/oco/train.py'
 
 CATALOGUE = []
 
@@ -154,6 +155,9 @@ TW('C01', 'twin-epilogue-mirrored', DS, "    resultant_mat_h = jnp.where(padding
 M(['C01', 'C03'], 'F21-size1-error-constant', DS, "    error = jnp.max(\n        jnp.where(jnp.isfinite(resultant_mat_h), 0.0, jnp.nan)).astype(\n            jnp.float32)\n", "    error = jnp.array(0, jnp.float32)\n")
 TW(['C01', 'C03'], 'twin-size1-error-residual', DS, "    error = jnp.max(\n        jnp.where(jnp.isfinite(resultant_mat_h), 0.0, jnp.nan)).astype(\n            jnp.float32)\n", "    error = jnp.max(jnp.abs(resultant_mat_h**p * damped_matrix - 1.0)).astype(jnp.float32)\n")
 
+M2(['C01', 'C03'], 'eigh-clamp-at-raw-ridge', [(DS, "  ridge_epsilon = ridge_epsilon * jnp.maximum(max_ev, error_tolerance)\n  regularized_input = matrix + ridge_epsilon * identity\n  e, u = jnp.linalg.eigh(regularized_input)\n  # Due to padding, we may have to zero out eigenvalues.\n  if padding_start is not None:\n    e *= jnp.flip(ix)\n  mm = functools.partial(jnp.matmul, precision=precision)",
+   "  scaled_ridge = ridge_epsilon * jnp.maximum(max_ev, error_tolerance)\n  regularized_input = matrix + scaled_ridge * identity\n  e, u = jnp.linalg.eigh(regularized_input)\n  # Due to padding, we may have to zero out eigenvalues.\n  if padding_start is not None:\n    e *= jnp.flip(ix)\n  mm = functools.partial(jnp.matmul, precision=precision)")])
+
 # ------------------------------------------------------------------ C02
 M('C02', 'momentum-wrong-buffer', DS, "        state.momentum.to_float() * beta1 + w * shampoo_update_with_wd)", "        state.diagonal_momentum.to_float() * beta1 + w * shampoo_update_with_wd)")
 M('C02', 'wd-before-graft-rescale', DS, "    shampoo_update = precond_grad * multiplier\n", "    shampoo_update = (precond_grad + weight_decay * param) * multiplier\n")
@@ -189,6 +193,9 @@ M(['C04', 'C02'], 'sharded-dispatch-functions-swapped', DS, "    (new_preconditi
 TW(['C04', 'C02'], 'twin-dispatcher-mirrored', DS, "      preconditioners_flat, metrics_flat = lax.cond(\n          steps == 1,", "      preconditioners_flat, metrics_flat = lax.cond(\n          1 == steps,")
 
 M(['C04', 'C02'], 'scheduled-flag-or', DS, "        decay_preconditioning_compute_steps\n        and end_preconditioning_compute_steps\n        and callable(learning_rate)\n    )\n\n    preconditioning_compute_steps_t = preconditioning_compute_steps\n    if scheduled_preconditioning_compute_steps:\n      preconditioning_compute_steps_t = preconditioning_compute_steps_schedule(\n          learning_rate,\n          preconditioning_compute_steps,\n          end_preconditioning_compute_steps,\n          step,", "        decay_preconditioning_compute_steps\n        or end_preconditioning_compute_steps\n        and callable(learning_rate)\n    )\n\n    preconditioning_compute_steps_t = preconditioning_compute_steps\n    if scheduled_preconditioning_compute_steps:\n      preconditioning_compute_steps_t = preconditioning_compute_steps_schedule(\n          learning_rate,\n          preconditioning_compute_steps,\n          end_preconditioning_compute_steps,\n          step,", count=2)
+
+M(['C04', 'C02'], 'sharded-roots-of-stale-statistics', DS, "      preconditioners, metrics = _matrix_inverse_pth_root_pjit(\n          new_stacked_padded_statistics,\n", "      preconditioners, metrics = _matrix_inverse_pth_root_pjit(\n          global_stats.statistics,\n")
+M('C04', 'sharded-roots-with-padding-starts-as-exponents', DS, "          new_stacked_padded_statistics,\n          global_stats.exponents,\n          stacked_padding_starts,\n", "          new_stacked_padded_statistics,\n          stacked_padding_starts,\n          global_stats.exponents,\n")
 
 # ------------------------------------------------------------------ C05
 M(['C05', 'C02'], 'graft-norm-from-grad', DS, "    grafting_update_norm = jnp.linalg.norm(grafting_update)", "    grafting_update_norm = jnp.linalg.norm(grad)")
@@ -454,6 +461,13 @@ M(['C13', 'C07'], 'pmap-slice-back-square', DS, "          _select_preconditione
 
 TW(['C13', 'C07'], 'twin-sharded-init-exponents-padded-at-end', DS, "    exponents.extend([1 for _ in range(to_pad)])\n    global_stats = GlobalShardedParameterStats(\n        jnp.stack(padded_statistics), jnp.stack(padded_preconditioners),\n        jnp.stack(exponents))", "    stacked_exponents = jnp.pad(jnp.asarray(exponents, dtype=jnp.int32), (0, to_pad), constant_values=1)\n    global_stats = GlobalShardedParameterStats(\n        jnp.stack(padded_statistics), jnp.stack(padded_preconditioners),\n        stacked_exponents)")
 
+M('C13', 'vmap-exponent-of-first-statistic', DS, '    return jax.vmap(mi_pth_root)(\n        xs, ps, padding_start=padding_starts, prev=prev)\n', '    return jax.vmap(mi_pth_root, in_axes=(0, None))(\n        xs, ps[0], padding_start=padding_starts, prev=prev)\n')
+M('C13', 'vmap-padding-start-of-first-statistic', DS, '    return jax.vmap(matrix_inverse_pth_root_wrapper)(qxs, qds, qbs, ps,\n                                                     padding_starts, qpxs, qpds,\n                                                     qpbs)\n', '    return jax.vmap(matrix_inverse_pth_root_wrapper, in_axes=(0, 0, 0, 0, None, 0, 0, 0))(qxs, qds, qbs, ps,\n                                                     padding_starts[0], qpxs, qpds,\n                                                     qpbs)\n')
+M('C13', 'vmap-prev-dropped', DS, '    return jax.vmap(mi_pth_root)(\n        xs, ps, padding_start=padding_starts, prev=prev)\n', '    return jax.vmap(mi_pth_root)(\n        xs, ps, padding_start=padding_starts, prev=None)\n')
+M('C13', 'vmap-all-padding-shortcut-on-last', DS, '    return jax.vmap(mi_pth_root)(\n        xs, ps, padding_start=padding_starts, prev=prev)\n', '    roots_fn = functools.partial(\n        jax.vmap(mi_pth_root), xs, ps, padding_start=padding_starts, prev=prev)\n\n    def zero_roots_fn():\n      return jax.tree.map(lambda s: jnp.zeros(s.shape, s.dtype),\n                          jax.eval_shape(roots_fn))\n\n    return lax.cond(padding_starts[-1] == 0, zero_roots_fn, roots_fn)\n')
+TW('C13', 'twin-vmap-all-padding-shortcut-on-first', DS, '    return jax.vmap(mi_pth_root)(\n        xs, ps, padding_start=padding_starts, prev=prev)\n', '    roots_fn = functools.partial(\n        jax.vmap(mi_pth_root), xs, ps, padding_start=padding_starts, prev=prev)\n\n    def zero_roots_fn():\n      return jax.tree.map(lambda s: jnp.zeros(s.shape, s.dtype),\n                          jax.eval_shape(roots_fn))\n\n    return lax.cond(padding_starts[0] == 0, zero_roots_fn, roots_fn)\n')
+TW('C13', 'twin-vmap-explicit-in-axes', DS, '    return jax.vmap(matrix_inverse_pth_root_wrapper)(qxs, qds, qbs, ps,\n                                                     padding_starts, qpxs, qpds,\n                                                     qpbs)\n', '    return jax.vmap(matrix_inverse_pth_root_wrapper, in_axes=(0,) * 8, out_axes=0)(qxs, qds, qbs, ps,\n                                                     padding_starts, qpxs, qpds,\n                                                     qpbs)\n')
+
 # ------------------------------------------------------------------ C14
 M2('C14', 'closure-step-counter', [(DS, "  def update_fn(grads, state, params):\n    \"\"\"Transform the input gradient and update all statistics.\n", "  host_steps = [0]\n\n  def update_fn(grads, state, params):\n    \"\"\"Transform the input gradient and update all statistics.\n"),
                                    (DS, "    params_flat, treedef = jax.tree.flatten(params)\n    stats_flat = treedef.flatten_up_to(state.stats)", "    host_steps.append(len(host_steps))\n    params_flat, treedef = jax.tree.flatten(params)\n    stats_flat = treedef.flatten_up_to(state.stats)")])
@@ -501,6 +515,14 @@ M('C16', 'ada-dispatch-to-fd', OCO, "  elif hparams.algorithm == Algorithm.ADA:\
 M('C16', 'adafd-d', OCO, "    d = e / (alpha + e)", "    d = e / (alpha + e * e)")
 TW('C16', 'twin-deflate-expanded', OCO, "  s = (s - rho) * (s + rho)", "  s = s * s - rho * rho")
 
+M2('C16', 'driver-static-update-fn-compare-false', [('precondition/oco/train.py', 'import functools\nfrom typing import Callable, Optional\n', 'import dataclasses\nimport functools\nfrom typing import Callable, Optional\n'), ('precondition/oco/train.py', "@functools.partial(\n    jax.jit,\n    static_argnames=[\n        'loss_and_grad',", "@dataclasses.dataclass(frozen=True)\nclass _StaticUpdateFn:\n  algorithm: algorithms.Algorithm\n  sketch_size: int\n  fn: algorithms.UpdateFn = dataclasses.field(compare=False)\n\n  def __call__(self, state, loss, grad):\n    return self.fn(state, loss, grad)\n\n\n@functools.partial(\n    jax.jit,\n    static_argnames=[\n        'loss_and_grad',"), ('precondition/oco/train.py', '  init_fn, update_fn = algorithms.generate_init_update(dataset.w_shape, hparams)\n', '  init_fn, update_fn = algorithms.generate_init_update(dataset.w_shape, hparams)\n  update_fn = _StaticUpdateFn(hparams.algorithm, hparams.sketch_size, update_fn)\n')])
+M2('C16', 'driver-static-update-fn-custom-eq', [('precondition/oco/train.py', 'import functools\nfrom typing import Callable, Optional\n', 'import dataclasses\nimport functools\nfrom typing import Callable, Optional\n'), ('precondition/oco/train.py', "@functools.partial(\n    jax.jit,\n    static_argnames=[\n        'loss_and_grad',", "@dataclasses.dataclass(frozen=True)\nclass _StaticUpdateFn:\n  algorithm: algorithms.Algorithm\n  sketch_size: int\n  fn: algorithms.UpdateFn\n\n  def __eq__(self, other):\n    return (self.algorithm, self.sketch_size) == (other.algorithm, other.sketch_size)\n\n  def __hash__(self):\n    return hash((self.algorithm, self.sketch_size))\n\n  def __call__(self, state, loss, grad):\n    return self.fn(state, loss, grad)\n\n\n@functools.partial(\n    jax.jit,\n    static_argnames=[\n        'loss_and_grad',"), ('precondition/oco/train.py', '  init_fn, update_fn = algorithms.generate_init_update(dataset.w_shape, hparams)\n', '  init_fn, update_fn = algorithms.generate_init_update(dataset.w_shape, hparams)\n  update_fn = _StaticUpdateFn(hparams.algorithm, hparams.sketch_size, update_fn)\n')])
+M2('C16', 'twin-driver-static-update-fn-full-equality', [('precondition/oco/train.py', 'import functools\nfrom typing import Callable, Optional\n', 'import dataclasses\nimport functools\nfrom typing import Callable, Optional\n'), ('precondition/oco/train.py', "@functools.partial(\n    jax.jit,\n    static_argnames=[\n        'loss_and_grad',", "@dataclasses.dataclass(frozen=True)\nclass _StaticUpdateFn:\n  algorithm: algorithms.Algorithm\n  sketch_size: int\n  fn: algorithms.UpdateFn\n\n  def __call__(self, state, loss, grad):\n    return self.fn(state, loss, grad)\n\n\n@functools.partial(\n    jax.jit,\n    static_argnames=[\n        'loss_and_grad',"), ('precondition/oco/train.py', '  init_fn, update_fn = algorithms.generate_init_update(dataset.w_shape, hparams)\n', '  init_fn, update_fn = algorithms.generate_init_update(dataset.w_shape, hparams)\n  update_fn = _StaticUpdateFn(hparams.algorithm, hparams.sketch_size, update_fn)\n')], kind='twin')
+M('C16', 'driver-loss-and-grad-swapped', TR, "    state = update_fn(state, f, g)\n", "    state = update_fn(state, g, f)\n")
+M('C16', 'driver-label-of-another-row', TR, "    f, g = loss_and_grad(state['w'], r, y[ix])\n", "    f, g = loss_and_grad(state['w'], r, y[idx])\n")
+M('C16', 'driver-init-fn-not-called-per-run', TR, "  initial_state = init_fn()\n", "  initial_state = dict(w=jnp.zeros(dataset.w_shape))\n")
+TW('C16', 'twin-driver-pair-indexed', TR, "  init_fn, update_fn = algorithms.generate_init_update(dataset.w_shape, hparams)\n", "  pair = algorithms.generate_init_update(hparams=hparams, w_shape=dataset.w_shape)\n  init_fn = pair[0]\n  update_fn = pair[1]\n")
+
 # ------------------------------------------------------------------ C17
 _TOPUP = "        if realloc[key] < dim:\n          realloc[key] += 1\n          extra -= 1\n        if extra <= 0:\n          break"
 M('C17', 'F9-leftover-uncharged', RA, _TOPUP, "        realloc[key] = min(realloc[key] + 1, dim)\n        extra = extra - 1 if realloc[key] + 1 < dim else extra\n        if extra <= 0:\n          break")
@@ -528,3 +550,10 @@ M('C17', 'group-size-assert-strict', RA, "    assert group_resource >= group_siz
 M('C17', 'outlier-test-uses-dim', RA, "      if is_outlier(pair[1], total_score, group_resource, dim - 1):", "      if is_outlier(pair[1], total_score, group_resource, dim):")
 M('C17', 'share-not-proportional', RA, "        unit_rsc = group_resource / total_score if total_score > 0 else 0.0\n        realloc.update", "        unit_rsc = group_resource * total_score if total_score > 0 else 0.0\n        realloc.update")
 TW('C17', 'twin-topup-reordered-test', RA, _TOPUP, "        if dim > realloc[key]:\n          extra -= 1\n          realloc[key] += 1\n        if extra <= 0:\n          break")
+
+M('C17', 'topup-multipass-stale-headroom-list', RA, '      for (key, _) in sorted_scores:\n        if realloc[key] < dim:\n          realloc[key] += 1\n          extra -= 1\n        if extra <= 0:\n          break\n', '      room = [key for (key, _) in sorted_scores if realloc[key] < dim]\n      while extra > 0 and room:\n        for key in room:\n          realloc[key] += 1\n          extra -= 1\n          if extra <= 0:\n            break\n')
+TW('C17', 'twin-topup-multipass-rechecked', RA, '      for (key, _) in sorted_scores:\n        if realloc[key] < dim:\n          realloc[key] += 1\n          extra -= 1\n        if extra <= 0:\n          break\n', '      progress = True\n      while extra > 0 and progress:\n        progress = False\n        for (key, _) in sorted_scores:\n          if realloc[key] < dim:\n            realloc[key] += 1\n            extra -= 1\n            progress = True\n          if extra <= 0:\n            break\n')
+
+M(['C09', 'C15'], 'sk-relative-eps-of-root-eigenvalue', SK, "    eps = jnp.max(undeflated) * options.epsilon\n", "    eps = top_eigs[0] * options.epsilon\n")
+M(['C09', 'C15'], 'sk-relative-eps-of-deflated', SK, "    eps = jnp.max(undeflated) * options.epsilon\n", "    eps = jnp.max(deflated) * options.epsilon\n")
+TW(['C09', 'C15'], 'twin-sk-relative-eps-commuted', SK, "    eps = jnp.max(undeflated) * options.epsilon\n", "    eps = options.epsilon * undeflated.max()\n")
